@@ -11,6 +11,7 @@ import (
 	"io"
 	"sync"
 	"time"
+	"verifharness/ev"
 
 	"github.com/openconfig/gribigo/server"
 	"google.golang.org/grpc/metadata"
@@ -179,6 +180,7 @@ func (m *ModStream) Read() (*spb.ModifyResponse, error) {
 		default:
 		}
 		if time.Now().After(deadline) {
+			ev.NoteWatchdog("a Modify stream produced no response")
 			return nil, ErrWatchdog
 		}
 		// wait with a periodic wake-up (cond has no timeout)
@@ -217,6 +219,7 @@ func (m *ModStream) WaitEnd() (error, error) {
 		defer m.mu.Unlock()
 		return m.result, nil
 	case <-time.After(Watchdog):
+		ev.NoteWatchdog("a Modify stream produced no response")
 		return nil, ErrWatchdog
 	}
 }
@@ -264,6 +267,7 @@ func Get(s spb.GRIBIServer, req *spb.GetRequest, failAt int) ([]*spb.GetResponse
 		defer g.mu.Unlock()
 		return g.Got, err, nil
 	case <-time.After(Watchdog):
+		ev.NoteWatchdog("a Get / Flush RPC did not return")
 		return nil, nil, ErrWatchdog
 	}
 }
@@ -283,6 +287,7 @@ func Flush(s spb.GRIBIServer, req *spb.FlushRequest) (*spb.FlushResponse, error,
 	case x := <-done:
 		return x.r, x.err, nil
 	case <-time.After(Watchdog):
+		ev.NoteWatchdog("a Get / Flush RPC did not return")
 		return nil, nil, ErrWatchdog
 	}
 }
